@@ -402,6 +402,31 @@ func scripted(seed int64, G, total int, R, T time.Duration, procs int) {
 	log := s.Log()
 	ops := report("scripted", sig, log, tun.Params{Resend: R, Timeout: T, Slack: 3*stall + 20*time.Millisecond}, nil)
 	counts := map[string]int{}
+	// numbers whose exchange was broken by a frozen process: a Send that was owed a success
+	// timed out with its copies far further apart than the resend interval. The number is
+	// not advanced then, the next Send re-uses it, and a late answer to the starved Send's
+	// last copy can decide that next Send instead: neither outcome says anything about the
+	// sender
+	type chSeq struct{ ch, seq uint8 }
+	starvedNumbers := map[chSeq]bool{}
+	for _, o := range ops {
+		if !o.TimedOut() || len(o.Frames) == 0 {
+			continue
+		}
+		prev, worst := time.Duration(-1), time.Duration(0)
+		for _, fi := range o.Frames {
+			if prev >= 0 && log[fi].T-prev > worst {
+				worst = log[fi].T - prev
+			}
+			prev = log[fi].T
+		}
+		if o.RetT-prev > worst {
+			worst = o.RetT - prev
+		}
+		if worst > 4*R+10*time.Millisecond {
+			starvedNumbers[chSeq{o.Channel, o.Seq}] = true
+		}
+	}
 	for _, o := range ops {
 		sc := scriptOf(seed, o.ID)
 		counts[scriptNames[sc]]++
@@ -440,6 +465,10 @@ func scripted(seed int64, G, total int, R, T time.Duration, procs int) {
 				r.Inconclusive(fmt.Sprintf("%s: telegram %d (%s) timed out with %v between two copies of the request (resend interval %v): starved timers, not judged", sig, o.ID, scriptNames[sc], worst, R))
 				continue
 			}
+		}
+		if got != want && len(o.Frames) > 0 && starvedNumbers[chSeq{o.Channel, o.Seq}] {
+			r.Inconclusive(fmt.Sprintf("%s: telegram %d (%s) shares its number %d with a Send whose exchange was broken by starved timers; outcome %q not judged", sig, o.ID, scriptNames[sc], o.Seq, got))
+			continue
 		}
 		if got != want {
 			r.Violate("sender.script-outcome", map[string]string{"workload": "scripted", "script": scriptNames[sc]},
@@ -764,6 +793,18 @@ func staleAck(seed int64, how string, copies int, procs int) {
 	if b < 0 {
 		r.Violate("reconnect.no-connect-response-taken", nil, map[string]interface{}{"signature": sig}, "[stale-ack] the client did not reconnect after the gateway ended the connection (%s)", how)
 		return
+	}
+	// sync point: once an inbound request on the new channel is acknowledged the new receive
+	// loop runs, i.e. the client has finished the reconnect (taking the connect response is
+	// not yet that: a Send could still slip in with the old channel and number)
+	if !gw.SendToClient(0xfff100) {
+		r.Inconclusive(sig + ": the sync request after the reconnect was not acknowledged")
+		c.T.Close()
+		return
+	}
+	select {
+	case <-c.T.Inbound():
+	case <-time.After(2 * time.Second):
 	}
 	muted.Store(true)
 	c.Send(0, 2) // no acknowledgement will come: must not succeed
